@@ -1,7 +1,7 @@
 (* C20 -- inverse pairs: word codecs, SMDH bit tables, RGB565 expansion, Morton tiling, DIFI descriptor.
    All statements are about the kernels regenerated from the current source (Gen_tmd, Gen_smdh, Gen_difi). *)
 From Pyctr Require Import Base.Prelude Base.ListExt Base.PyInt Base.PySlice Base.PyStr Base.Sweep Base.Fields.
-From Pyctr Require Import Model.Codecs Proofs.CodecsProofs Model.Nand Proofs.NandProofs.
+From Pyctr Require Import Model.Codecs Proofs.CodecsProofs Model.Nand Proofs.NandProofs Model.CfgSave Proofs.CfgSaveProofs.
 From Dyn Require Import Gen_tmd Gen_smdh Gen_difi.
 
 (* ---- title-version and content-type flag words (finite domains: swept completely, bound in the statement) ---- *)
@@ -194,6 +194,19 @@ Print Assumptions C20_dpfs_bytes_of_parse.
 Theorem C20_seeddb_roundtrip : forall db, Forall entry_ok db -> keys_fresh [] db -> len db < 2 ^ 32 -> seeddb_load (seeddb_save db) [] = db.
 Proof. exact seeddb_roundtrip. Qed.
 Print Assumptions C20_seeddb_roundtrip.
+
+(* ---- the config savegame: loading what to_bytes produced gives back the blocks -- ids, flags, data and order -- for every block
+   list with distinct ids whose blocks pass the strict table (whatever that table is), as soon as to_bytes does not run out of
+   space: blocks of up to 4 bytes inside their entries, larger ones laid out from the end of the file, in entry order ---- *)
+Theorem C20_config_save_roundtrip : forall known bs raw,
+  Forall (wf_blk known) bs -> NoDup (map b_id bs) -> cfg_bytes bs = Ok raw -> cfg_load known raw = Ok bs.
+Proof. exact cfg_load_of_bytes. Qed.
+Print Assumptions C20_config_save_roundtrip.
+
+Example C20_config_save_nonvacuous :
+  Forall (wf_blk ex_known) ex_blocks /\ NoDup (map b_id ex_blocks) /\
+  is_ok (cfg_bytes ex_blocks) = true /\ (do raw <- cfg_bytes ex_blocks; cfg_load ex_known raw) = Ok ex_blocks.
+Proof. exact cfg_nonvacuous. Qed.
 
 (* ---- the NAND NCSD header (model and proof shared with C13): parse then serialise gives back the 512 bytes ---- *)
 Theorem C20_ncsd_header_roundtrip : forall sig mu tbl unk mbr h,
